@@ -45,6 +45,10 @@ CHECKS = {
    technique="TLA+ delay-line spec (DelayLine.tla) + synchronisation-level model (MC_DelaySync.tla); real DelayFilter under the gate scheduler in real time, free-running producers, router MinDelay in exact virtual time and with jitter in real time; arrival/departure traces validated by TLC",
    text="TLC checks NeverPanics/LowerBound/NoDup on the two-step arrival + select-loop protocol of delay_filter.go (and that the pinned push-branch assertion is violable). The real DelayFilter runs (a) under the gate scheduler with a yield at every lock/channel/select of delay_filter.go and chunk_queue.go, arrivals racing timer expiry, delays 0..2 ms, (b) with free-running producers and stale chunk timestamps, and the router's MinDelay runs in exact virtual time (also with a slow destination NIC) and with MaxJitter in real time; every arrival, departure, recovered panic and the at-rest point are validated by TLC against DelayLine.tla: lower bound, arrival order (partial order for overlapping hand-ins), exactly once, unmodified, nothing left behind.",
    note="DelayFilter cannot run under an exact virtual clock (deadline.Before(now) spins), so its runs are real-time: stamps over-approximate spans (no false alarm from noise), liveness judged after waiting up to 3 s; schedules sampled within budget"),
+ "C18": dict(engine="tlc-trace", design_ref="DESIGN.md §4 C18",
+   technique="TLA+ specs (Bridge.tla, DPipe.tla) + TLC MC (Conservation, InOrder, CloseIsLocal) + transition tours and seeded scripts on the real Bridge (synctest bubble) and dpipe; traces validated by TLC",
+   text="TLC checks conservation (delivered + in flight = written minus scripted drops, nothing duplicated or invented) on Bridge.tla and in-order/close-is-local on DPipe.tla; tours of both state graphs and seeded scripts (DropNextNWrites, ReorderNextNWrites used repeatedly, Drop, Reorder, Filter, Tick/Process, reads into short and long slices, both directions) run on the real code; every write, script call, delivery and the drained point are validated by TLC.",
+   note="Bridge tours are sampled in the quick tier (all edges in thorough); ReorderNextNWrites is not re-armed mid-collection; payload tail checked by the harness"),
 }
 
 def main():
